@@ -94,7 +94,7 @@ def recv( conn, maxlen=4*1024 ):
 
 
 @readable( default=(None,None) )
-def recvfrom( conn, maxlen=4*1024 ):
+def recvfrom( conn, maxlen=64*1024 ): # a datagram is received whole, or its remainder is lost
     """Non-blocking recvfrom via. select, accepts optional timeout= keyword parameter.  Return None if
     no data received within timeout (default is immediate timeout).  Otherwise, the data payload;
     zero length data implies EOF.
